@@ -228,7 +228,7 @@ func (s *FileSequence) Split() FileSequences {
 		buf.WriteString(s.padChar)
 		buf.WriteString(s.ext)
 
-		seq, _ = NewFileSequence(buf.String())
+		seq, _ = NewFileSequencePad(buf.String(), s.PaddingStyle())
 		list[i] = seq
 
 		buf.Reset()
@@ -507,7 +507,7 @@ func (s *FileSequence) String() string {
 
 // Copy returns a copy of the FileSequence
 func (s *FileSequence) Copy() *FileSequence {
-	seq, _ := NewFileSequence(s.String())
+	seq, _ := NewFileSequencePad(s.String(), s.PaddingStyle())
 	return seq
 }
 
